@@ -9,8 +9,7 @@ import grammar as G
 import lit
 from props import c04 as R
 
-CLASSES_C05 = {1: 'double_close', 2: 'nodemult_sym', 3: 'bmult_one', 4: 'ring_in_unit', 5: 'nested_in_unit',
-               6: 'sibling_before_mult', 7: 'mult_at_end', 8: 'pct_at_end', 9: 'nodemult_order_in_unit', 10: 'stale_recipe'}
+CLASSES_C05 = {1: 'double_close', 4: 'ring_in_unit', 5: 'nested_in_unit', 10: 'stale_recipe'}
 
 
 def py_class(a, braces=True):
@@ -20,10 +19,6 @@ def py_class(a, braces=True):
     mval = lambda br: int(br['m']) if br['m'] is not None else 1
     if any(br['c'][-1]['br'] for _, _, br in sites):
         return 1
-    if any(it['m'] is not None and it['b'] for it in its):
-        return 2
-    if any(br['m'] is not None and mval(br) == 1 for _, _, br in sites):
-        return 3
     for it, j, br in sites:
         unit = ([it] if j == 0 else []) + list(G.items_in_order(br['c']))
         if mval(br) >= 2 and any(u['r'] for u in unit):
@@ -33,29 +28,6 @@ def py_class(a, braces=True):
         anchor0 = it is a[0] and mval(it) <= 1
         if mval(br) >= 2 and inner and (mval(br) >= 3 or anchor0 or len(inner) >= 2 or any(b['m'] is not None for b in inner)):
             return 5
-    if any(mval(br) >= 2 and j > 0 for _, j, br in sites):
-        return 6
-    if not braces and a[-1]['br'] and a[-1]['br'][-1]['m'] is not None and not a[-1]['br'][-1]['a']:
-        return 7
-    if not braces:
-        t = G.print_chain(a).rstrip('0123456789')
-        if t.endswith('%') and G.print_chain(a)[-1].isdigit():
-            return 8
-    def inc(chain, pend, acc):
-        for it in chain:
-            acc.append((it, pend))
-            p = it['b']
-            for br in it['br']:
-                inc(br['c'], p, acc)
-                p = br['a']
-            pend = p
-        return acc
-    for it, j, br in sites:
-        if mval(br) >= 2:
-            pend = it['b'] if j == 0 else it['br'][j - 1]['a']
-            if any(x['m'] is not None and int(x['m']) >= 2 and G.SYM_ORDER.get(p, 1) != 1 for x, p in inc(br['c'], pend, [])):
-                return 9
-
     def stale(chain, anc, total):
         for it in chain:
             for br in it['br']:
@@ -163,7 +135,7 @@ class C05(common.Prop):
 
     def corpus(self, ctx):
         known = common.load_known_findings()
-        return [dict(f['witness']) for f in known.get('findings', []) if f['property'] == self.id]
+        return [dict(f['witness']) for f in known.get('findings', []) + known.get('fixed', []) if f['property'] == self.id]
 
     def generate(self, ctx, n):
         rng = ctx.rng
